@@ -112,7 +112,41 @@ def main():
                                                'second': k2})
     inplace_scalar()
     aliasing()
+    lengths()
     print('EXPR-JSON ' + json.dumps(fails))
+
+
+def lengths():
+    """len(f) follows the broadcasting rule whatever the order in which the
+    terms were added"""
+    from cvxopt.modeling import dot, sum as msum
+    x = variable(3, 'x')
+    y = variable(3, 'y')
+    s_ = variable(1, 's')
+    x.value = matrix([1.0, -2.0, 3.0])
+    y.value = matrix([0.5, 1.5, -1.0])
+    s_.value = matrix([2.0])
+    c = matrix([1.0, 2.0, 3.0])
+    A = matrix([float(i) for i in range(1, 10)], (3, 3))
+    cases = [('dot(c,x) + y', lambda: dot(c, x) + y, 3),
+             ('y + dot(c,x)', lambda: y + dot(c, x), 3),
+             ('sum(x) - A*y', lambda: msum(x) - A * y, 3),
+             ('A*y - sum(x)', lambda: A * y - msum(x), 3),
+             ('dot(c,x) + s', lambda: dot(c, x) + s_, 1),
+             ('s + x', lambda: s_ + x, 3),
+             ('c.T*x + 2*y', lambda: c.T * x + 2.0 * y, 3),
+             ('s + dot(c,y)', lambda: s_ + dot(c, y), 1)]
+    for nm, mk, want in cases:
+        try:
+            f = mk()
+            got = len(f)
+            v = f.value()
+        except Exception as e:
+            fail('len-value', {'expression': nm, 'raised': repr(e)})
+            continue
+        if got != want or len(v) != want:
+            fail('len-value', {'expression': nm, 'len(f)': got,
+                               'len(f.value())': len(v), 'rule': want})
 
 
 def aliasing():
